@@ -238,6 +238,12 @@ fn now_ms() -> u64 {
         .as_millis() as u64
 }
 
+/// A case that runs the subject many times (a search from one seed, a long session) calls
+/// this before each run of the subject: the watchdog then measures one run, not the case.
+pub fn heartbeat() {
+    IN_FLIGHT_SINCE_MS.store(mono_ms(), Ordering::SeqCst);
+}
+
 pub enum Mode {
     Run,
     Describe(u64),
